@@ -90,7 +90,10 @@ func (core *JApiCore) findPaste(d *directive.Directive, walking, done map[string
 
 func (core *JApiCore) collectUserTypes() {
 	for _, d := range core.directivesWithPastes {
-		if d.Type() == directive.Type {
+		// A second TYPE with a name already taken is reported where it stands when
+		// the catalog is built; it must not replace the first one while the types
+		// are compiled.
+		if d.Type() == directive.Type && !core.catalog.GetRawUserTypes().Has(d.NamedParameter("Name")) {
 			core.catalog.AddRawUserType(d)
 		}
 	}
